@@ -31,6 +31,8 @@ func init() {
 			{ID: "C16-R7", Title: "builtins do not sort or write the operand's own storage", Floor: 1, Run: builtinsDoNotMutateOperandStorage},
 			{ID: "C16-R8", Title: "script values are not compared by object identity", Floor: 5, Run: noIdentityComparisonOfScriptValues},
 			{ID: "C16-R9", Title: "container-valued operations return new objects", Floor: 3, Run: operationResultsAreNewObjects},
+			{ID: "C16-R10", Title: "HashKey is the payload itself: distinct values never share a set member or map key (shared with C15-R3)", Floor: 5, Run: c15r3},
+			{ID: "C16-R11", Title: "an in-place removal inside a loop over the same index ends the loop or steps back", Floor: 1, Run: removalInsideForwardLoop},
 		},
 	})
 }
